@@ -52,6 +52,11 @@ def gen(seed: int, tier: str) -> dict[str, Any]:
                         else rng.randrange(1, 2 ** 47),
                         # hand-offs (by ordinal) that fail although the frame went out: e.g. the tunnel lost its ACKs
                         "fail_calls": sorted(rng.sample(range(12), rng.choice([0, 0, 1, 3])))})
+    for s_ in senders:
+        if rng.random() < 0.25:
+            # this node's Data Secure is set up from the keyring (numbers seeded from the clock) and set up again later, as
+            # on stop() / start() of the same XKNX object
+            s_.update(start=None, kr=True, fail_calls=[])
     for i in range(n_ref):
         senders.append({"kind": "ref", "ia": W.ia(4, 1, 20 + i), "start": rng.choice([1, rng.randrange(1, 2 ** 47), MAXSEQ - 5])})
     ops = []
@@ -62,6 +67,14 @@ def gen(seed: int, tier: str) -> dict[str, Any]:
                         [10, 3, 2, 2, 2, 1, 2, 1])[0]
         ops.append({"t": round(t, 6), "op": k, "s": rng.randrange(len(senders)), "id": i + 1, "ga": rng.choice([GA1, GA2]),
                     "d": rng.choice([1, 2, 1000, 2 ** 30])})
+    for si, s_ in enumerate(senders):
+        if s_.get("kr"):
+            tr_ = round(rng.uniform(0.2, t + 0.5), 6)
+            ops.append({"t": tr_, "op": "restart", "s": si, "id": 900 + si, "ga": GA1, "d": 1})
+            for j in range(rng.choice([1, 2, 3])):
+                ops.append({"t": round(tr_ + rng.choice([0.0, 0.001, 0.05, 0.5]) + 0.001 * j, 6), "op": "genuine", "s": si,
+                            "id": 950 + 10 * si + j, "ga": rng.choice([GA1, GA2]), "d": 1})
+    ops.sort(key=lambda o: o["t"])
     policy = None
     if rng.random() < 0.5:
         policy = {"dup": rng.choice([0.0, 0.15]), "delay": rng.choice([0.0, 0.2]), "corrupt": rng.choice([0.0, 0.1]),
@@ -84,6 +97,10 @@ def run(plan: dict[str, Any]) -> dict[str, Any]:
     rx = D.Node(R, "rx", RX_IA, keys, known)
     nodes = [D.Node(R, f"tx{i}", s["ia"], keys, {}, last_seq_sending=s["start"]) if s["kind"] == "real" else None
              for i, s in enumerate(senders)]
+    for i, s in enumerate(senders):
+        if s.get("kr"):
+            nodes[i].restart_data_secure()       # first set-up from the keyring
+    restarts: dict[int, list[int]] = {}
     ref_next = {i: s["start"] for i, s in enumerate(senders) if s["kind"] == "ref"}
     bus_log: list[dict[str, Any]] = []      # every frame handed to the receiver, in delivery order, with ground truth
     frames_sent: list[bytes] = []
@@ -145,6 +162,11 @@ def run(plan: dict[str, Any]) -> dict[str, Any]:
             s = senders[si]
             k = op["op"]
             apdu = D.gv_write_apdu(op["id"].to_bytes(2, "big"))
+            if k == "restart":
+                restarts.setdefault(si, []).append(len(wire_out[si]))
+                nodes[si].restart_data_secure()
+                R.extra_faults["data_secure_set_up_again_from_keyring"] += 1
+                return
             if k != "genuine":
                 R.extra_faults["attack_" + k] += 1
             if k == "genuine":
@@ -166,7 +188,7 @@ def run(plan: dict[str, Any]) -> dict[str, Any]:
                     to_bus(rng.choice(frames_sent), {"kind": "replay"})
             elif k in ("lower", "equal", "jump"):
                 # attacker with the key: any counter relative to the sender's last used one
-                last = (ref_next[si] - 1) if s["kind"] == "ref" else (wire_out[si][-1] if wire_out[si] else s["start"])
+                last = (ref_next[si] - 1) if s["kind"] == "ref" else (wire_out[si][-1] if wire_out[si] else (s["start"] or 1))
                 seq = {"lower": max(0, last - op["d"]), "equal": last, "jump": min(MAXSEQ, last + op["d"])}[k]
                 if k == "jump" and s["kind"] == "ref":
                     ref_next[si] = seq + 1
@@ -174,7 +196,7 @@ def run(plan: dict[str, Any]) -> dict[str, Any]:
             elif k == "unknown_sender":
                 to_bus(D.secure_frame(keys[op["ga"]], apdu, rng.randrange(1, 2 ** 40), unknown_ia, op["ga"]), {"kind": k})
             elif k == "forged":
-                fr = bytearray(D.secure_frame(keys[op["ga"]], apdu, ((ref_next.get(si) or s["start"]) + 5) & MAXSEQ, s["ia"], op["ga"]))
+                fr = bytearray(D.secure_frame(keys[op["ga"]], apdu, ((ref_next.get(si) or s["start"] or 1) + 5) & MAXSEQ, s["ia"], op["ga"]))
                 fr[-1 - rng.randrange(8)] ^= 1 << rng.randrange(8)
                 to_bus(bytes(fr), {"kind": k, "s": si})
             elif k == "plain_key_ga":
@@ -258,6 +280,10 @@ def run(plan: dict[str, Any]) -> dict[str, Any]:
             if q > MAXSEQ or q < 0:
                 R.violate("C17.outgoing-increasing", "sequence-exceeds-48-bit", f"node {i}: {q}")
         s = senders[i]
+        if s.get("kr"):
+            # numbers seeded from the clock, again at every new set-up: strictly increasing is what is judged (above)
+            R.probes["frames_of_nodes_set_up_from_keyring"] += len(seqs)
+            continue
         if s["kind"] == "real":
             n_sent_ops = sum(1 for o in plan["ops"] if o["op"] == "genuine" and o["s"] == i)
             room = MAXSEQ - s["start"] + 1
